@@ -591,9 +591,16 @@ func (o *PipelineOracle) onWire(w *World, pi int, p *Peer, c *Conn, u *Update, r
 			inFirst := false
 			if len(a.ASPath) > 0 && a.ASPath[0].Type == 2 && len(a.ASPath[0].ASNs) > 0 {
 				first = a.ASPath[0].ASNs[0]
-				for _, x := range a.ASPath[0].ASNs {
-					if x == dut.LocalAS {
-						inFirst = true
+				// what an export policy prepends comes in front of the local ASN, in the same AS_SEQUENCE
+				// or, when that one is full, in the sequences opened before it
+				for _, seg := range a.ASPath {
+					if seg.Type != 2 {
+						break
+					}
+					for _, x := range seg.ASNs {
+						if x == dut.LocalAS {
+							inFirst = true
+						}
 					}
 				}
 			}
